@@ -455,9 +455,13 @@ impl EnvFilter {
         if !self.regex {
             directive.deregexify();
         }
+        // A directive that only lists field names is both: a static directive for
+        // callsites that have those fields, and a dynamic one that applies inside
+        // spans having them (this mirrors `Directive::make_tables`).
         if let Some(stat) = directive.to_static() {
             self.statics.add(stat)
-        } else {
+        }
+        if directive.is_dynamic() {
             self.has_dynamics = true;
             self.dynamics.add(directive);
         }
